@@ -1,8 +1,8 @@
-(* C11: shift / reflection equivariance of the modelled list functions (Intervals.v, Cigar.v, PolyA*.v, Regions.v). *)
+(* C11: shift / reflection equivariance of the modelled list functions (Intervals.v, Cigar.v, PolyA*.v); Regions.v is in MirrorRegions.v. *)
 From Coq Require Import ZArith NArith List Bool Lia ZifyBool.
 From IQ.gen Require Import Prims Tables.
 From IQ Require Import CorrSupport Mirror.
-From IQ Require Intervals IntervalsSpec IntervalsProofs Cigar Cigar2 PolyA PolyA2 Regions.
+From IQ Require Intervals IntervalsSpec IntervalsProofs Cigar Cigar2 PolyA PolyA2.
 Import ListNotations. Open Scope Z_scope.
 
 (* ================================================================ generic list facts *)
@@ -26,6 +26,10 @@ Lemma rev_shl k l : rev (shl k l) = shl k (rev l).
 Proof. symmetry. apply map_rev. Qed.
 Lemma nth_error_map' {A B} (f:A -> B) l n : nth_error (map f l) n = option_map f (nth_error l n).
 Proof. revert n; induction l as [|a t IH]; intros [|n]; cbn; auto. Qed.
+
+Lemma nth_rfl0 L l n : (n < length l)%nat -> nth n (rfl L l) (0, 0) = rf L (nth (length l - Datatypes.S n) l (0, 0)).
+Proof. intros H. unfold rfl. rewrite rev_nth by (rewrite map_length; exact H). rewrite map_length.
+  rewrite (nth_indep _ (0, 0) (rf L (0, 0))) by (rewrite map_length; lia). apply map_nth. Qed.
 
 Module IntervalsShift.
 Import Intervals IntervalsSpec IntervalsProofs.
@@ -334,105 +338,6 @@ Example find_polyt_head_shift_refuted :
 Proof. vm_compute. repeat split; try reflexivity. discriminate. Qed.
 End AlignShift.
 
-(* ================================================================ shift: split_coverage_regions, for shifts by whole coverage bins only *)
-Module RegionsShift.
-Import Regions.
-Section R.
-Variables BIN MAXLEN MINREADS ABSV RN RD : Z.
-Variable m : Z.                                   (* the shift is m bins = m * BIN bases *)
-Definition shcov (cov:Z -> Z) : Z -> Z := fun p => cov (p - m).
-Definition shbin (b:iv) : iv := (fst b + m, snd b + m).
-
-Lemma inner_shift cov last : forall fuel cs pos maxc,
-  inner BIN MAXLEN ABSV RN RD (shcov cov) (last + m) fuel (cs + m) (pos + m) maxc =
-  option_map (fun pm => (fst pm + m, snd pm)) (inner BIN MAXLEN ABSV RN RD cov last fuel cs pos maxc).
-Proof. induction fuel as [|f IH]; intros cs pos maxc; [reflexivity|]. cbn [inner]. unfold not_valley, shcov.
-  replace (pos + m - m) with pos by lia. replace (pos + m <=? last + m) with (pos <=? last) by lia. replace (pos + m - (cs + m)) with (pos - cs) by lia.
-  destruct (((pos <=? last) && (pos - cs <? min_bins BIN MAXLEN)) || ((ABSV <? cov pos) && (maxc * RN <? RD * cov pos))); [|reflexivity].
-  replace (pos + m + 1) with (pos + 1 + m) by lia. apply IH. Qed.
-
-Lemma outer_fix_shift cov last : forall fuel cs pos maxc acc,
-  outer_fix BIN MAXLEN ABSV RN RD (shcov cov) (last + m) fuel (cs + m) (pos + m) maxc (map shbin acc) =
-  option_map (map shbin) (outer_fix BIN MAXLEN ABSV RN RD cov last fuel cs pos maxc acc).
-Proof. induction fuel as [|f IH]; intros cs pos maxc acc; [reflexivity|]. cbn [outer_fix]. replace (cs + m <=? last + m) with (cs <=? last) by lia.
-  destruct (cs <=? last); [|reflexivity]. rewrite inner_shift.
-  destruct (inner BIN MAXLEN ABSV RN RD cov last (S f) cs pos maxc) as [[p mx]|]; [|reflexivity]. cbn [option_map fst snd].
-  replace (Z.min (p + m + 1) (last + m + 1)) with (Z.min (p + 1) (last + 1) + m) by lia.
-  replace (shcov cov (p + m)) with (cov p) by (unfold shcov; f_equal; lia).
-  replace (map shbin acc ++ [(cs + m, p + m)]) with (map shbin (acc ++ [(cs, p)])) by (rewrite map_app; reflexivity). apply IH. Qed.
-
-Lemma region_of_shift r b : region_of BIN (sh (m * BIN) r) (shbin b) = sh (m * BIN) (region_of BIN r b).
-Proof. unfold region_of, sh, shbin. cbn [fst snd]. f_equal; lia. Qed.
-
-Lemma region_of_first_shift r b : region_of_first BIN (sh (m * BIN) r) (shbin b) = sh (m * BIN) (region_of_first BIN r b).
-Proof. unfold region_of_first, sh, shbin. cbn [fst snd]. f_equal; lia. Qed.
-Lemma nonempty_shift k x : nonempty_iv (sh k x) = nonempty_iv x.
-Proof. unfold nonempty_iv, sh. cbn [fst snd]. lia. Qed.
-Lemma emit_regions_shift r : forall bs started, emit_regions BIN (sh (m * BIN) r) started (map shbin bs) = shl (m * BIN) (emit_regions BIN r started bs).
-Proof. induction bs as [|b t IH]; intros started; [reflexivity|]. cbn [map emit_regions]. rewrite region_of_shift, region_of_first_shift.
-  replace (if started then sh (m * BIN) (region_of BIN r b) else sh (m * BIN) (region_of_first BIN r b))
-     with (sh (m * BIN) (if started then region_of BIN r b else region_of_first BIN r b)) by (destruct started; reflexivity).
-  rewrite nonempty_shift. destruct (nonempty_iv (if started then region_of BIN r b else region_of_first BIN r b)); rewrite IH; reflexivity. Qed.
-Lemma split_bins_shift cov first last :
-  split_bins BIN MAXLEN ABSV RN RD (shcov cov) (first + m) (last + m) = option_map (map shbin) (split_bins BIN MAXLEN ABSV RN RD cov first last).
-Proof. unfold split_bins. replace (split_fuel (first + m) (last + m)) with (split_fuel first last) by (unfold split_fuel; do 3 f_equal; lia).
-  replace (first + m + 1) with (first + 1 + m) by lia. replace (shcov cov (first + m)) with (cov first) by (unfold shcov; f_equal; lia).
-  change (@nil iv) with (map shbin []) at 1. apply outer_fix_shift. Qed.
-
-(* split_coverage_regions: region, coverage dictionary and its key range moved by m bins => the sub-regions move by m * BIN bases
-   (the code with fixes/C05_first_subregion_start.diff, and the code before it) *)
-Theorem split_regions_shift r count cov first last :
-  split_regions BIN MAXLEN MINREADS ABSV RN RD (sh (m * BIN) r) count (shcov cov) (first + m) (last + m) =
-  option_map (shl (m * BIN)) (split_regions BIN MAXLEN MINREADS ABSV RN RD r count cov first last).
-Proof. unfold split_regions. rewrite py_interval_len_shift. destruct ((py_interval_len r <? MAXLEN) && (count <? MINREADS)); [reflexivity|].
-  rewrite split_bins_shift. destruct (split_bins BIN MAXLEN ABSV RN RD cov first last) as [bs|]; [|reflexivity].
-  cbn [option_map]. f_equal. apply emit_regions_shift. Qed.
-Theorem split_regions_prev_shift r count cov first last :
-  split_regions_prev BIN MAXLEN MINREADS ABSV RN RD (sh (m * BIN) r) count (shcov cov) (first + m) (last + m) =
-  option_map (shl (m * BIN)) (split_regions_prev BIN MAXLEN MINREADS ABSV RN RD r count cov first last).
-Proof. unfold split_regions_prev. rewrite py_interval_len_shift. destruct ((py_interval_len r <? MAXLEN) && (count <? MINREADS)); [reflexivity|].
-  rewrite split_bins_shift. destruct (split_bins BIN MAXLEN ABSV RN RD cov first last) as [bs|]; [|reflexivity].
-  cbn [option_map]. f_equal. induction bs as [|b t IH]; [reflexivity|]. cbn [map filter]. rewrite region_of_shift, nonempty_shift.
-  destruct (nonempty_iv (region_of BIN r b)); cbn [shl map]; rewrite IH; reflexivity. Qed.
-
-(* the coverage dictionary of the shifted alignments is the shifted dictionary *)
-Hypothesis BIN_pos : 0 < BIN.
-Definition shaln (a:aln) : aln := (rs a + m * BIN, re a + m * BIN, snd a).
-Lemma sbin_shift a : sbin BIN (shaln a) = sbin BIN a + m.
-Proof. unfold sbin, shaln, rs. cbn [fst snd]. rewrite Z.div_add by lia. reflexivity. Qed.
-Lemma ebin_shift a : ebin BIN (shaln a) = ebin BIN a + m.
-Proof. unfold ebin, shaln, re. cbn [fst snd]. replace (snd (fst a) + m * BIN - 1) with (snd (fst a) - 1 + m * BIN) by lia. rewrite Z.div_add by lia. reflexivity. Qed.
-Theorem cov_of_shift l p : cov_of BIN (map shaln l) p = shcov (cov_of BIN l) p.
-Proof. unfold shcov. rewrite !cov_of_eq. f_equal. induction l as [|a t IH]; [reflexivity|]. cbn [map filter]. rewrite sbin_shift, ebin_shift.
-  replace ((sbin BIN a + m <=? p) && (p <=? ebin BIN a + m)) with ((sbin BIN a <=? p - m) && (p - m <=? ebin BIN a)) by lia.
-  destruct ((sbin BIN a <=? p - m) && (p - m <=? ebin BIN a)); cbn [length]; rewrite IH; reflexivity. Qed.
-Lemma fold_min_shift l : forall x, fold_left (fun mn b => Z.min mn (sbin BIN b)) (map shaln l) (x + m) = fold_left (fun mn b => Z.min mn (sbin BIN b)) l x + m.
-Proof. induction l as [|a t IH]; intros x; [reflexivity|]. cbn [map fold_left]. rewrite sbin_shift. replace (Z.min (x + m) (sbin BIN a + m)) with (Z.min x (sbin BIN a) + m) by lia. apply IH. Qed.
-Lemma fold_max_shift l : forall x, fold_left (fun mx b => Z.max mx (ebin BIN b)) (map shaln l) (x + m) = fold_left (fun mx b => Z.max mx (ebin BIN b)) l x + m.
-Proof. induction l as [|a t IH]; intros x; [reflexivity|]. cbn [map fold_left]. rewrite ebin_shift. replace (Z.max (x + m) (ebin BIN a + m)) with (Z.max x (ebin BIN a) + m) by lia. apply IH. Qed.
-Theorem first_last_bin_shift l : l <> [] -> first_bin BIN (map shaln l) = first_bin BIN l + m /\ last_bin BIN (map shaln l) = last_bin BIN l + m.
-Proof. destruct l as [|a t]; [congruence|]. intros _. unfold first_bin, last_bin. cbn [map]. rewrite sbin_shift, ebin_shift, fold_min_shift, fold_max_shift. split; reflexivity. Qed.
-End R.
-
-(* for a shift that is NOT a multiple of the bin size the cut points (bin boundaries) stay where they are: with the constants of the
-   repository, two 34-kb alignments joined by a thin bridge are cut at 34048 | 34049, and after moving everything by ONE base (or 37) the
-   cut is still at 34048 | 34049 instead of 34049 | 34050; a whole bin (256) moves the cut with the data *)
-Definition split_with (sp:iv -> Z -> (Z -> Z) -> Z -> Z -> option (list iv)) (l:list aln) : option (list iv) :=
-  match hull_of l with
-  | Some whole => sp whole (Z.of_nat (length l)) (cov_of AP_COVERAGE_BIN l) (first_bin AP_COVERAGE_BIN l) (last_bin AP_COVERAGE_BIN l)
-  | None => None end.
-Definition sh1 (k:Z) (a:aln) : aln := (rs a + k, re a + k, snd a).
-Definition w_shift : list aln := [(0, 34000, 1); (0, 34000, 2); (33000, 36000, 3); (35000, 70000, 4); (35000, 70000, 5)].
-Definition cut_of (o:option (list iv)) : option Z := match o with Some (a :: _ :: _) => Some (snd a) | _ => None end.
-Example split_regions_shift_refuted :
-  cut_of (split_with iq_split_regions w_shift) = Some 34048 /\ cut_of (split_with iq_split_regions_prev w_shift) = Some 34048 /\
-  cut_of (split_with iq_split_regions (map (sh1 1) w_shift)) = Some 34048 /\ cut_of (split_with iq_split_regions_prev (map (sh1 1) w_shift)) = Some 34048 /\
-  cut_of (split_with iq_split_regions (map (sh1 37) w_shift)) = Some 34048 /\
-  cut_of (split_with iq_split_regions (map (sh1 256) w_shift)) = Some (34048 + 256) /\
-  split_with iq_split_regions (map (sh1 256) w_shift) = option_map (shl 256) (split_with iq_split_regions w_shift).
-Proof. vm_compute. repeat split; reflexivity. Qed.
-End RegionsShift.
-
 (* ================================================================ reflection: interval lists *)
 Module IntervalsMirror.
 Import Intervals IntervalsSpec IntervalsProofs.
@@ -536,6 +441,85 @@ Proof. intros HA HB Hne. destruct (jaccard_spec A B HA HB Hne) as [E _]. rewrite
   assert (Hne': rfl L A <> [] \/ rfl L B <> []).
   { destruct Hne as [H|H]; [left|right]; intros E'; apply (f_equal (@length iv)) in E'; rewrite rfl_length in E'; [destruct A|destruct B]; congruence || discriminate. }
   destruct (jaccard_spec _ _ (sd_mirror L A HA) (sd_mirror L B HB) Hne') as [E2 _]. rewrite E2, pairs_mirror, !total_mirror. reflexivity. Qed.
+
+(* MIRROR PAIR interval_bin_search / interval_bin_search_rev: on a sorted list of disjoint intervals the index found from the left
+   for pos and the index found from the right for the mirrored position are mirror images (n-1-i); "outside" (-1) on both sides together *)
+Lemma bsr_loop_hit : forall fuel l pos ind step i, bsr_loop fuel l pos ind step = Some i ->
+  exists a b, pyidx l (i - 1) = Some a /\ pyidx l i = Some b /\ snd a < pos <= snd b.
+Proof. induction fuel as [|f IH]; intros l pos ind step i H; [discriminate|]. cbn [bsr_loop] in H.
+  destruct (pyidx l (ind - 1)) as [a|] eqn:Ea; [|discriminate]. destruct (pyidx l ind) as [b|] eqn:Eb; [|discriminate].
+  destruct ((snd a <? pos) && (pos <=? snd b)) eqn:E.
+  - inversion H; subst ind. exists a, b. repeat split; auto; lia.
+  - destruct (pos >? snd b); eapply IH; eauto. Qed.
+Lemma bs_loop_hit : forall fuel l pos ind step i, bs_loop fuel l pos ind step = Some i ->
+  exists a b, pyidx l i = Some a /\ pyidx l (i + 1) = Some b /\ fst a <= pos < fst b.
+Proof. induction fuel as [|f IH]; intros l pos ind step i H; [discriminate|]. cbn [bs_loop] in H.
+  destruct (pyidx l ind) as [a|] eqn:Ea; [|discriminate]. destruct (pyidx l (ind + 1)) as [b|] eqn:Eb; [|discriminate].
+  destruct ((fst a <=? pos) && (pos <? fst b)) eqn:E.
+  - inversion H; subst ind. exists a, b. repeat split; auto; lia.
+  - destruct (pos <? fst a); eapply IH; eauto. Qed.
+Lemma nth_error_last {A} : forall (t:list A) x d, nth_error (x :: t) (length t) = Some (last (x :: t) d).
+Proof. induction t as [|y t IH]; intros x d; [reflexivity|]. cbn [length nth_error]. rewrite (IH y d). reflexivity. Qed.
+Lemma pyidx_m1 {A} (x:A) (t:list A) : pyidx (x :: t) (-1) = Some (last (x :: t) x).
+Proof. unfold pyidx. replace ((0 <=? -1) && (-1 <? Z.of_nat (length (x :: t)))) with false by lia.
+  replace ((-1 <? 0) && (- Z.of_nat (length (x :: t)) <=? -1)) with true by (cbn [length]; lia).
+  replace (Z.to_nat (Z.of_nat (length (x :: t)) + -1)) with (length t) by (cbn [length]; lia). apply nth_error_last. Qed.
+Lemma pyidx_0 {A} (x:A) (t:list A) : pyidx (x :: t) 0 = Some x.
+Proof. unfold pyidx. replace ((0 <=? 0) && (0 <? Z.of_nat (length (x :: t)))) with true by (cbn [length]; lia). reflexivity. Qed.
+Lemma sd_fst_mono : forall l, sd l -> forall p q, (p <= q < length l)%nat -> fst (nth p l (0, 0)) <= fst (nth q l (0, 0)).
+Proof. induction l as [|a t IH]; intros Hs p q Hpq; [cbn in Hpq; lia|].
+  destruct q as [|q]; [assert (p = 0%nat) as -> by lia; lia|]. destruct p as [|p].
+  - cbn [nth]. pose proof (sd_after a t Hs) as F. rewrite Forall_forall in F. specialize (F (nth q t (0, 0)) ltac:(apply nth_In; cbn in Hpq; lia)).
+    cbn [sd] in Hs. lia.
+  - cbn [nth]. apply IH; [eapply sd_tail; exact Hs|cbn in Hpq; lia]. Qed.
+Lemma sd_fst_strict : forall l, sd l -> forall p q, (p < q < length l)%nat -> fst (nth p l (0, 0)) < fst (nth q l (0, 0)).
+Proof. induction l as [|a t IH]; intros Hs p q Hpq; [cbn in Hpq; lia|].
+  destruct q as [|q]; [lia|]. destruct p as [|p].
+  - cbn [nth]. pose proof (sd_after a t Hs) as F. rewrite Forall_forall in F. specialize (F (nth q t (0, 0)) ltac:(apply nth_In; cbn in Hpq; lia)).
+    cbn [sd] in Hs. lia.
+  - cbn [nth]. apply IH; [eapply sd_tail; exact Hs|cbn in Hpq; lia]. Qed.
+Lemma nthz_rfl L l j : 0 <= j < Z.of_nat (length l) -> nthz (rfl L l) j (0, 0) = rf L (nthz l (Z.of_nat (length l) - 1 - j) (0, 0)).
+Proof. intros H. unfold nthz. rewrite (nth_rfl0 L l (Z.to_nat j)) by lia. f_equal. f_equal. lia. Qed.
+
+Theorem bin_search_mirror L l pos i j : sd l ->
+  bin_search l pos = Ok (Some i) -> bin_search_rev (rfl L l) (L + 1 - pos) = Ok (Some j) -> 0 <= i -> 0 <= j ->
+  j = Z.of_nat (length l) - 1 - i.
+Proof. intros Hs Hi Hj Hi1 Hj0. destruct l as [|a t]; [discriminate Hi|].
+  destruct (rfl_first_last L a t) as (b & t' & E & Eb & El).
+  unfold bin_search in Hi. unfold bin_search_rev in Hj. rewrite E in Hj. rewrite El in Hj. rewrite <- E in Hj. rewrite rfl_length in Hj. subst b.
+  set (z := last (a :: t) a) in *. set (n := Z.of_nat (length (a :: t))) in *.
+  assert (Hn1: 1 <= n) by (unfold n; cbn [length]; lia).
+  unfold rf in Hj at 1 2 3. cbn [fst snd] in Hj.
+  replace ((L + 1 - pos >? L + 1 - fst a) || (L + 1 - pos <? L + 1 - snd z)) with ((pos >? snd z) || (pos <? fst a)) in Hj by lia.
+  destruct ((pos >? snd z) || (pos <? fst a)) eqn:Eout.
+  - assert (Hi': -1 = i) by congruence. lia.
+  - replace (L + 1 - pos <=? L + 1 - fst z) with (pos >=? fst z) in Hj by lia.
+    destruct (pos >=? fst z) eqn:Ez.
+    + assert (Hi': n - 1 = i) by congruence. assert (Hj': 0 = j) by congruence. lia.
+    + match type of Hi with Ok ?x = _ => assert (Hi': x = Some i) by congruence end. match type of Hj with Ok ?x = _ => assert (Hj': x = Some j) by congruence end. clear Hi Hj.
+      destruct (bs_loop_sound _ _ _ _ _ _ Hi' Hi1) as [Hin Hip].
+      destruct (bsr_loop_hit _ _ _ _ _ _ Hj') as (x & y & Ex & Ey & Hxy).
+      (* j = 0 would need pos' <= snd (first interval of the mirrored list), excluded by Ez *)
+      assert (Hj1: 1 <= j).
+      { destruct (Z.eq_dec j 0) as [->|]; [|lia]. exfalso. rewrite E, pyidx_0 in Ey.
+        assert (Hy: y = rf L z) by congruence. rewrite Hy in Hxy. unfold rf in Hxy. cbn [snd] in Hxy. unfold z in *. lia. }
+      assert (Hjm: 0 <= j - 1) by lia.
+      destruct (pyidx_nonneg (rfl L (a :: t)) (j - 1) x (0, 0) Hjm Ex) as [_ Hx]. destruct (pyidx_nonneg (rfl L (a :: t)) j y (0, 0) Hj0 Ey) as [Hjn Hy].
+      rewrite rfl_length in Hjn. fold n in Hjn, Hin.
+      rewrite nthz_rfl in Hx by (fold n; lia). rewrite nthz_rfl in Hy by (fold n; lia). fold n in Hx, Hy. subst x y. unfold rf in Hxy. cbn [snd] in Hxy.
+      replace (n - 1 - (j - 1)) with (n - j) in Hxy by lia.
+      (* fst l[n-1-j] <= pos < fst l[n-j]  and  fst l[i] <= pos < fst l[i+1]: the starts are increasing *)
+      unfold nthz in *. destruct (Z.lt_trichotomy i (n - 1 - j)) as [Hlt|[Heq|Hgt]]; [|lia|].
+      * exfalso. pose proof (sd_fst_mono (a :: t) Hs (Z.to_nat (i + 1)) (Z.to_nat (n - 1 - j)) ltac:(unfold n in *; lia)). lia.
+      * exfalso. pose proof (sd_fst_mono (a :: t) Hs (Z.to_nat (n - j)) (Z.to_nat i) ltac:(unfold n in *; lia)). lia. Qed.
+(* ... and "outside the list" is decided by the same test on both sides *)
+Theorem bin_search_outside_mirror L l pos : l <> [] ->
+  (bin_search l pos = Ok (Some (-1)) /\ bin_search_rev (rfl L l) (L + 1 - pos) = Ok (Some (-1))) \/
+  (match l with a :: _ => fst a <= pos <= snd (last l a) | [] => False end).
+Proof. destruct l as [|a t]; [congruence|]. intros _. destruct (rfl_first_last L a t) as (b & t' & E & Eb & El).
+  unfold bin_search, bin_search_rev. rewrite E, El. subst b. unfold rf. cbn [fst snd].
+  replace ((L + 1 - pos >? L + 1 - fst a) || (L + 1 - pos <? L + 1 - snd (last (a :: t) a))) with ((pos >? snd (last (a :: t) a)) || (pos <? fst a)) by lia.
+  destruct ((pos >? snd (last (a :: t) a)) || (pos <? fst a)) eqn:Eo; [left; split; reflexivity|right; lia]. Qed.
 End IntervalsMirror.
 
 (* ================================================================ reflection: the polyA / polyT pairs of src/polya_verification.py *)
